@@ -44,6 +44,7 @@ class StoreWorld:
       ["settle"]                         wait until writer/pool/sql are idle
       ["advance", seconds]               move the virtual clock
       ["restart"]                        close + reopen the storage on the same durable state
+      ["restart_now"]                    the same without waiting for queued work first (orderly shutdown under load)
       ["setroles", pubkey, roles] / ["getroles", pubkey]
     """
 
@@ -208,6 +209,14 @@ class StoreWorld:
             elif kind == "advance":
                 sim.clock.mono += float(op[1])
                 o["res"] = ["ok"]
+            elif kind == "restart_now":
+                # an orderly shutdown while work may still be queued (no settling first): close() itself has to
+                # see the acknowledged writes through; then reopen on the same durable state
+                await env.close()
+                await env.open(create=False)
+                await self.settle()
+                o["res"] = ["ok"]
+                o["post"] = env.dump()
             elif kind == "restart":
                 await self.settle()
                 await env.close()
